@@ -171,7 +171,12 @@ static void run_stack(const char* subj, Rng& g, long nops, std::size_t block, Ma
         emit(fmt("%s move_assign", subj), "done", stack_state(*st[cur]));
         long lk = Handlers::leak();
         st[other]->~Stack();
-        emit(fmt("%s destroy_moved_from", subj), fmt("leaks %ld", Handlers::leak() - lk), "-");
+        {
+            long mf_leaks = Handlers::leak() - lk;
+            if (mf_leaks != 0)
+                O->fail("C15 the moved-from memory_stack reported a leak when it was destroyed: moving an allocator moves the count with it");
+            emit(fmt("%s destroy_moved_from", subj), fmt("leaks %ld", mf_leaks), "-");
+        }
         st[other] = nullptr;
         other = -1;
         markers.clear();
@@ -519,7 +524,12 @@ static void run_stack(const char* subj, Rng& g, long nops, std::size_t block, Ma
             emit(fmt("%s move", subj), "done", stack_state(*st[to]));
             long lk = Handlers::leak();
             st[cur]->~Stack();
-            emit(fmt("%s destroy_moved_from", subj), fmt("leaks %ld", Handlers::leak() - lk), "-");
+            {
+            long mf_leaks = Handlers::leak() - lk;
+            if (mf_leaks != 0)
+                O->fail("C15 the moved-from memory_stack reported a leak when it was destroyed: moving an allocator moves the count with it");
+            emit(fmt("%s destroy_moved_from", subj), fmt("leaks %ld", mf_leaks), "-");
+        }
             st[cur] = nullptr;
             cur = to;
             O->verify_all("after move");
